@@ -1,9 +1,154 @@
 package vapp
 
-import "github.com/Oneledger/protocol/action"
+import (
+	"bytes"
+	"crypto/ecdsa"
+	"math/big"
+	"sort"
+	"strings"
 
-func (g *Genesis) msgEth(t TxReq) (action.Msg, []string, bool) { return nil, nil, false }
+	"github.com/ethereum/go-ethereum/accounts/abi"
+	ethcommon "github.com/ethereum/go-ethereum/common"
+	ethtypes "github.com/ethereum/go-ethereum/core/types"
+	ethcrypto "github.com/ethereum/go-ethereum/crypto"
+	"github.com/ethereum/go-ethereum/rlp"
+
+	"github.com/Oneledger/protocol/action"
+	aeth "github.com/Oneledger/protocol/action/eth"
+	"github.com/Oneledger/protocol/chains/ethereum/contract"
+)
+
+var lockRedeemABI = func() abi.ABI {
+	a, err := abi.JSON(strings.NewReader(contract.LockRedeemABI))
+	if err != nil {
+		panic(err)
+	}
+	return a
+}()
+
+func ethKey(name string) *ecdsa.PrivateKey {
+	k, err := ethcrypto.ToECDSA(secret("ethkey", name))
+	if err != nil {
+		panic(err)
+	}
+	return k
+}
+
+// EthTx builds the embedded, signed ethereum transaction of a lock or redeem request.
+// kind "lock": a call of lock() with value amt; "redeem": a call of redeem(amt).
+func EthTx(kind, owner string, amt, n int64) []byte {
+	var data []byte
+	var err error
+	value := big.NewInt(0)
+	if kind == "lock" {
+		data, err = lockRedeemABI.Pack("lock")
+		value = big.NewInt(amt)
+	} else {
+		data, err = lockRedeemABI.Pack("redeem", big.NewInt(amt))
+	}
+	must(err)
+	tx := ethtypes.NewTransaction(uint64(n), LockRedeemContract, value, 300000, big.NewInt(1), data)
+	signed, err := ethtypes.SignTx(tx, ethtypes.NewEIP155Signer(big.NewInt(1)), ethKey(owner))
+	must(err)
+	raw, err := rlp.EncodeToBytes(signed)
+	must(err)
+	return raw
+}
+
+// TrackerName of an embedded transaction (the code uses the last 32 bytes of the raw bytes).
+func TrackerName(raw []byte) ethcommon.Hash { return ethcommon.BytesToHash(raw) }
+
+// WitnessIndex returns the index of a validator in the witness list as the store iterates it
+// (by raw address bytes), or -1.
+func (g *Genesis) WitnessIndex(v string) int64 {
+	var addrs [][]byte
+	for _, n := range g.Spec.Witnesses {
+		addrs = append(addrs, g.Validators[n].Val.Addr)
+	}
+	sort.Slice(addrs, func(i, j int) bool { return bytes.Compare(addrs[i], addrs[j]) < 0 })
+	id, ok := g.Validators[v]
+	if !ok {
+		return -1
+	}
+	for i, a := range addrs {
+		if bytes.Equal(a, id.Val.Addr) {
+			return int64(i)
+		}
+	}
+	return -1
+}
+
+func (g *Genesis) msgEth(t TxReq) (action.Msg, []string, bool) {
+	switch t.Kind {
+	case "ETH_LOCK":
+		raw := EthTx("lock", t.S("owner"), t.I("amt"), t.I("n"))
+		if b, ok := t.A["rawtx"].([]byte); ok {
+			raw = b
+		}
+		return &aeth.Lock{Locker: g.addr(t.S("owner")), ETHTxn: raw}, []string{t.S("owner")}, true
+	case "ETH_REDEEM":
+		raw := EthTx("redeem", t.S("owner"), t.I("amt"), t.I("n"))
+		return &aeth.Redeem{Owner: g.addr(t.S("owner")), To: ethcrypto.PubkeyToAddress(ethKey(t.S("owner")).PublicKey), ETHTxn: raw}, []string{t.S("owner")}, true
+	case "ETH_REPORT":
+		raw := EthTx(t.S("tkind"), t.S("towner"), t.I("tamt"), t.I("tn"))
+		idx := t.I("idx")
+		if _, given := t.A["idx"]; !given {
+			idx = g.WitnessIndex(t.S("by"))
+			if idx < 0 {
+				idx = 0
+			}
+		}
+		return &aeth.ReportFinality{TrackerName: TrackerName(raw), Locker: g.addr(t.S("locker")), ValidatorAddress: g.addr(t.S("by")),
+			VoteIndex: idx, Success: t.I("ok") != 0}, []string{t.S("by")}, true
+	}
+	return nil, nil, false
+}
 
 func (g *Genesis) buildOLVM(t TxReq) *Built {
 	panic("OLVM not built yet")
+}
+
+var extNames = func() map[string]string {
+	m := map[string]string{}
+	for _, x := range extPool {
+		kind := x.kind
+		m[Hex(EthTx(kind, x.owner, x.amt, x.n))] = ExtKey(kind, x.owner, x.amt, x.n)
+	}
+	return m
+}()
+
+// ExtKey is the model name of an external transaction.
+func ExtKey(kind, owner string, amt, n int64) string {
+	return kind + ":" + owner + ":" + itoa(amt) + ":" + itoa(n)
+}
+
+func itoa(n int64) string { return new(big.Int).SetInt64(n).String() }
+
+// ExtName maps the raw embedded transaction of a tracker to its model name.
+func ExtName(raw []byte) string {
+	if n, ok := extNames[Hex(raw)]; ok {
+		return n
+	}
+	h := TrackerName(raw)
+	return "x:" + Hex(h[:6])
+}
+
+var extByHash = func() map[string]string {
+	m := map[string]string{}
+	for _, x := range extPool {
+		h := TrackerName(EthTx(x.kind, x.owner, x.amt, x.n))
+		m[Hex(h[:])] = ExtKey(x.kind, x.owner, x.amt, x.n)
+	}
+	return m
+}()
+
+// ExtNameByHash maps a tracker name (32 bytes) to the model name of its external transaction.
+func ExtNameByHash(h []byte) string {
+	if n, ok := extByHash[Hex(h)]; ok {
+		return n
+	}
+	if len(h) > 6 {
+		h = h[:6]
+	}
+	return "x:" + Hex(h)
 }
